@@ -115,7 +115,6 @@ impl<K, V> Clone for LogCb<K, V> {
 }
 impl<K: KeyT, V: ValT> OnEvictCallback for LogCb<K, V> {
     fn on_evict<K2, V2>(&self, key: &K2, val: &V2) {
-        tick(FK::Callback);
         // the trait method is generic without bounds; this callback is only ever installed on
         // RawLRU<K, V, ..>, which is asserted through the type names before reinterpreting
         assert_eq!(std::any::type_name::<K2>(), std::any::type_name::<K>());
@@ -127,6 +126,8 @@ impl<K: KeyT, V: ValT> OnEvictCallback for LogCb<K, V> {
             crate::track::report(format!("the eviction callback was handed a key/value that is not a live object ({:?})", e));
         }
         crate::alloc::untracked(|| CB_LOG.with(|l| l.borrow_mut().push(e)));
+        // the injected panic comes after the entry has been noted: a callback that unwinds has still been called
+        tick(FK::Callback);
     }
 }
 
@@ -252,6 +253,8 @@ fn drain_iters<K: KeyT, V: ValT, E: OnEvictCallback, S: BuildHasher>(l: &mut Raw
 
 pub enum RawInner<K, V> {
     Plain(RawLRU<K, V, DefaultEvictCallback, HB>),
+    /// built by a conversion (default hasher)
+    PlainRs(RawLRU<K, V, DefaultEvictCallback, caches::DefaultHashBuilder>),
     Cb(RawLRU<K, V, LogCb<K, V>, HB>),
     CbRs(RawLRU<K, V, LogCb<K, V>, caches::DefaultHashBuilder>),
 }
@@ -262,6 +265,7 @@ macro_rules! with_raw {
     ($s:expr, $c:ident => $e:expr) => {
         match &mut $s.0 {
             RawInner::Plain($c) => $e,
+            RawInner::PlainRs($c) => $e,
             RawInner::Cb($c) => $e,
             RawInner::CbRs($c) => $e,
         }
@@ -271,6 +275,7 @@ macro_rules! with_raw_ref {
     ($s:expr, $c:ident => $e:expr) => {
         match &$s.0 {
             RawInner::Plain($c) => $e,
+            RawInner::PlainRs($c) => $e,
             RawInner::Cb($c) => $e,
             RawInner::CbRs($c) => $e,
         }
@@ -355,6 +360,66 @@ impl<K: KeyT, V: ValT> Subject for RawSubj<K, V> {
             *self = c2;
             return Ret::Unit;
         }
+        if op == Op::CloneFromReplace {
+            // destination: one more slot than the source, filled to the brim with other entries
+            fn fuller<K: KeyT, V: ValT, E: OnEvictCallback + Clone, S: BuildHasher + Clone>(src: &RawLRU<K, V, E, S>) -> RawLRU<K, V, E, S> {
+                let mut dst = src.clone();
+                let dcap = if src.cap() >= 64 { 64 } else { src.cap() + 1 };
+                dst.resize(dcap);
+                dst.purge();
+                for k in 0..dcap.min(90) {
+                    dst.put(K::mk(95 - k as u8), V::mk(95 - k as u8, 0));
+                }
+                let _ = crate::subjects::take_cb_log();
+                dst.clone_from(src);
+                dst
+            }
+            let new = match &self.0 {
+                RawInner::Plain(c) => RawInner::Plain(fuller(c)),
+                RawInner::PlainRs(c) => RawInner::PlainRs(fuller(c)),
+                RawInner::Cb(c) => RawInner::Cb(fuller(c)),
+                RawInner::CbRs(c) => RawInner::CbRs(fuller(c)),
+            };
+            *self = RawSubj(new);
+            return Ret::Unit;
+        }
+        if let Op::FromItems(code) = op {
+            if !matches!(self.0, RawInner::Plain(_) | RawInner::PlainRs(_)) {
+                return Ret::NotApplicable;
+            }
+            let (kind, items) = from_items_decode(code);
+            let v: Vec<(K, V)> = items.iter().map(|(k, ver)| (K::mk(*k), V::mk(*k, *ver))).collect();
+            let n = v.len();
+            let new: RawLRU<K, V> = match kind {
+                0 => v.into_iter().collect(),
+                1 => RawLRU::from(v),
+                2 => {
+                    let mut it = v.into_iter();
+                    let mut nx = || it.next().unwrap();
+                    match n {
+                        0 => RawLRU::from([] as [(K, V); 0]),
+                        1 => RawLRU::from([nx()]),
+                        2 => RawLRU::from([nx(), nx()]),
+                        3 => RawLRU::from([nx(), nx(), nx()]),
+                        4 => RawLRU::from([nx(), nx(), nx(), nx()]),
+                        _ => RawLRU::from([nx(), nx(), nx(), nx(), nx()]),
+                    }
+                }
+                3 => v.into_iter().filter(|_| true).collect(),
+                4 => {
+                    let mut a = v;
+                    let b = a.split_off(n / 2);
+                    a.into_iter().chain(b).collect()
+                }
+                _ => {
+                    // an unbounded source cut short by take_while: the size hint is (0, Some(huge))
+                    let lim = n as u64;
+                    (0u64..u64::MAX).map(|i| (K::mk(i.min(90) as u8), V::mk(i.min(90) as u8, 0))).take_while(|p| (p.0.id() as u64) < lim).collect()
+                }
+            };
+            *self = RawSubj(RawInner::PlainRs(new));
+            return Ret::Unit;
+        }
         with_raw!(self, c => raw_op(c, op, out))
     }
     fn snapshot(&self) -> Snap {
@@ -370,6 +435,7 @@ impl<K: KeyT, V: ValT> Subject for RawSubj<K, V> {
     fn try_clone(&self) -> Option<Self> {
         Some(RawSubj(match &self.0 {
             RawInner::Plain(c) => RawInner::Plain(c.clone()),
+            RawInner::PlainRs(c) => RawInner::PlainRs(c.clone()),
             RawInner::Cb(c) => RawInner::Cb(c.clone()),
             RawInner::CbRs(c) => RawInner::CbRs(c.clone()),
         }))
@@ -387,6 +453,7 @@ impl<K: KeyT, V: ValT> Subject for RawSubj<K, V> {
         dst.apply(Op::Put(cfg.keys.saturating_sub(1), 0), &mut out);
         match (&mut dst.0, &self.0) {
             (RawInner::Plain(d), RawInner::Plain(s)) => d.clone_from(s),
+            (RawInner::PlainRs(_), _) | (_, RawInner::PlainRs(_)) => return None,
             (RawInner::Cb(d), RawInner::Cb(s)) => d.clone_from(s),
             (RawInner::CbRs(d), RawInner::CbRs(s)) => d.clone_from(s),
             _ => return None,
